@@ -109,6 +109,12 @@ func (g *fgen) rprogram(apis, cfgs []string, maxTests, maxCalls int) *rprogram {
 // clone with some values changed / calls dropped / calls added (what makes entries stale)
 func (g *fgen) rmutate(n *rnode, change, drop, add float64, apis []string) *rnode {
 	m := &rnode{name: n.name, parallel: n.parallel, skip: n.skip}
+	if g.chance(g.skipProb) {
+		m.skip = g.pick("Skip", "Skipf", "SkipNow")
+	}
+	if g.chance(g.parProb) && strings.Contains(n.name, "") {
+		m.parallel = true
+	}
 	for _, c := range n.calls {
 		if g.chance(drop) {
 			break // drop this and all later calls: later ordinals become stale
@@ -131,6 +137,10 @@ func (g *fgen) rmutate(n *rnode, change, drop, add float64, apis []string) *rnod
 			continue // subtest removed from the program: its entries become stale
 		}
 		m.subs = append(m.subs, g.rmutate(s, change, drop, add, apis))
+	}
+	if g.chance(g.badProb) {
+		// a call whose snapshot location cannot be created: exactly one failure, nothing else
+		m.calls = append(m.calls, &callSpec{api: g.pick("snapshot", "json", "yaml", "ssnap", "sjson"), cfg: "bad", val: strVal(`{"a":1}`), x: &Expect{Unwritable: true}})
 	}
 	return m
 }
@@ -187,6 +197,8 @@ func genCleanScenarios(g *fgen, n int, apis []string, modes []string, opt cleanG
 		}
 		p := g.rprogram(apis, cfgs, opt.maxTests, opt.maxCalls)
 		sc := &Scenario{ID: g.id(), Configs: stdConfigs()}
+		g.skipProb, g.parProb, g.badProb = opt.skipProb, opt.parProb, opt.badProb
+		sc.Init = append(sc.Init, InitFile{P: "blocker", Content: []byte("a regular file\n"), Role: "other"})
 		if g.chance(opt.staleProb) {
 			sc.Init = append(sc.Init, staleFile(g, "main_test"))
 		}
@@ -234,6 +246,7 @@ type cleanGenOpts struct {
 	staleProb, decoyProb      float64
 	sortProb, againProb       float64
 	counts                    bool
+	skipProb, parProb, badProb float64
 }
 
 func rootNames(p *rprogram) []string {
